@@ -33,7 +33,7 @@ MemForms ==
            Mem(sg, "", "di", 7), Mem(sg, "bx", "si", 0), Mem(sg, "bp", "di", -300) } : sg \in {"", "es", "cs"}}
 Regs(w) == IF w = 8 THEN {R8("al"), R8("bh")} ELSE {R16("ax"), R16("bp"), R16("di")}
 MemLike == MemForms \cup {Lbl}
-ImmsS(w) == IF w = 8 THEN {Imm(5), Imm(-3), Imm(255), Off} ELSE {Imm(5), Imm(-3), Imm(65535), Off}
+ImmsS(w) == IF w = 8 THEN {Imm(5), Imm(-3), Imm(255), Imm(-128), Imm(200), Off} ELSE {Imm(5), Imm(-3), Imm(65535), Imm(-32768), Imm(43981), Off}
 ImmsU(w) == IF w = 8 THEN {Imm(5), Imm(255), Off} ELSE {Imm(5), Imm(65535), Off}
 
 Pairs(w, signed) ==
